@@ -356,7 +356,14 @@ def resume_attempt(ctx, rng, servers, stored, W, r, force=None):
         cs.pskConfigs = [ext]
         ss.pskConfigs = [ext]
         ext_psk = True
-    fl = Flavor("cert", skey="rsa", ckey=r.ckey, req_cert=bool(r.ckey),
+    req_cert = bool(r.ckey)
+    if r.ckey and len(W["steps"]) % 3 == 0:
+        # the accepting server call does not ask for a certificate: what the
+        # original connection authenticated belongs to the session all the
+        # same (no draw from rng: earlier histories stay as they were)
+        req_cert = False
+        ctx.count("resume_attempts_without_cert_request")
+    fl = Flavor("cert", skey="rsa", ckey=r.ckey, req_cert=req_cert,
                 cset=cs, sset=ss, session_cache=srv.cache, session=s2,
                 sni=sni)
     if mech != "ticket13" and sni != r.sni:
@@ -556,6 +563,8 @@ def resume_attempt(ctx, rng, servers, stored, W, r, force=None):
             want = [bytes(x.bytes) for x in creds.client(r.ckey)[0].x509List]
             got = ss_.clientCertChain
             gotb = [bytes(x.bytes) for x in got.x509List] if got else None
+            if not req_cert:
+                ctx.count("resumed_identity_checked_without_cert_request")
             if gotb != want:
                 ctx.violation(dict(key, clause="resumed_identity_lost",
                                    got="none" if got is None else "other"),
@@ -585,7 +594,8 @@ def resume_attempt(ctx, rng, servers, stored, W, r, force=None):
             nr.etm = bool(p.c.session.encryptThenMAC)
             nr.sni = sni
             # (a connection keyed by an external PSK shows no certificates)
-            nr.ckey = None if ext_psk else r.ckey
+            # (nor does a full handshake that did not ask for one)
+            nr.ckey = None if (ext_psk or not req_cert) else r.ckey
             nr.sid = bytes(p.c.session.sessionID or b"")
             if inconsistent == "suite13" or getattr(r, "cipher_names", None):
                 nr.cipher_names = list(cs.cipherNames)
